@@ -521,6 +521,15 @@ def part_b(ctx, res):
             edges = [(0, 1), (1, 2)]
             late = (2,)
             res.count("staged_line")
+        if ri % 6 == 2 and n_nodes == 3:
+            # relay through a node that itself had to pull: a line with the longest chain at one end and the shortest at the
+            # other — the far end gets the longest chain's blocks only from the middle node, which obtained them by asking
+            order_ = sorted(range(3), key=lambda k_: coinstates[k_].head().height)
+            coinstates = [coinstates[k_] for k_ in order_]
+            tips = [tips[k_] for k_ in order_]
+            edges = [(0, 1), (1, 2)]
+            late = ()
+            res.count("line_with_longest_at_the_far_end")
         same_host = (ri % 2 == 1)
         net = Net(rng, coinstates, edges, same_host=same_host)
         windows = net.run_to_fixpoint(late=late)
